@@ -32,5 +32,5 @@ MANIFEST = {
     'category': 'proof',
     'technique': 'contract-based deductive verification (pyvc VCs with loop invariants and write-time contracts, z3 nonlinear real arithmetic); formal Kronecker-term execution of the real functions; exact rational Galerkin integrals as bounded stand-in',
     'text': 'det_and_inv_2x2/3x3, inverses_2x2/3x3 and determinants_3x3 are verified from the Cython source for every array size: all accesses in bounds, det is the Leibniz determinant, and the stored matrix is the two-sided inverse whenever det != 0 (polynomial identities discharged by z3); bsp_mixed_deriv_biform_1d(_asym) and inner_products choose quadrature orders that are exact for their polynomial integrands; bsp_mass/stiffness_2d/3d without geometry are the stated Kronecker sums. 1D matrices for all derivative orders, two different spaces on a common mesh and polynomial weights are compared with exact rational integrals; Kronecker path vs generic path with identity geometry, entry sums vs measure, kernel of the stiffness matrix, SPD-ness, exact integrals/load vectors and the low-rank fast assembler are checked on enumerated spaces (bounded).',
-    'note': 'double as real; non-zero determinant required; numeric clauses bounded (domain in evidence).',
+    'note': 'double as real; non-zero determinant required; numeric clauses bounded (domain in evidence). The four 1D convenience wrappers forward every optional argument (call-argument obligations). Known finding: the low-rank assembler with its DEFAULT stopping counts depends on the rand() state (3 listed fresh-process histories, e.g. stiffness_fast on the unit square, p=1, 2x2 spans: 8 of 60 identical calls off by 0.375); with skipcount=tolcount=25 it meets its tolerance on the enumerated spaces.',
 }
